@@ -96,3 +96,63 @@ def in_effect(c, events, t, val):
     vi = val(events[i][1])
     res = [c.If(win, vi[k], res[k]) for k in range(width)]
   return exists, tuple(res)
+
+
+def populate_full(c, ns, n_notes=1, prefix='', section=True, tempo=True,
+                  groups=False):
+  """Fills every repeated field of `ns` with symbolic content.
+
+  Returns dict with the note views and the list of all (container name, index,
+  time variable) triples of non-note events.
+  """
+  P = prefix
+  notes = add_notes(c, ns, n_notes, prefix=P + 'n', instruments=(0, 3),
+                    drums=True, programs=(0, 127))
+  tt = well_formed_total(c, ns, notes, name=P + 'tt')
+  ev = []
+
+  def t(name):
+    return c.real(P + name, 0)
+
+  x = t('ts_t')
+  ns.time_signatures.add(time=x, numerator=c.int(P + 'ts_n', 1, 12),
+                         denominator=4)
+  ev.append(('time_signatures', 0, x))
+  x = t('ks_t')
+  ns.key_signatures.add(time=x, key=c.int(P + 'ks_k', 0, 11),
+                        mode=c.int(P + 'ks_m', 0, 1))
+  ev.append(('key_signatures', 0, x))
+  if tempo:
+    x = t('tp_t')
+    ns.tempos.add(time=x, qpm=c.real(P + 'tp_q', 10, 480))
+    ev.append(('tempos', 0, x))
+  x = t('pb_t')
+  ns.pitch_bends.add(time=x, bend=c.int(P + 'pb_b', -8192, 8191),
+                     instrument=c.int(P + 'pb_i', 0, 3))
+  ev.append(('pitch_bends', 0, x))
+  x = t('cc_t')
+  ns.control_changes.add(time=x, control_number=c.int(P + 'cc_n', 0, 127),
+                         control_value=c.int(P + 'cc_v', 0, 127),
+                         instrument=c.int(P + 'cc_i', 0, 3))
+  ev.append(('control_changes', 0, x))
+  x = t('ta_t')
+  ns.text_annotations.add(time=x, text='Cmaj7',
+                          annotation_type=c.int(P + 'ta_ty', 0, 2))
+  ev.append(('text_annotations', 0, x))
+  if section:
+    x = t('sa_t')
+    ns.section_annotations.add(time=x, section_id=c.int(P + 'sa_id', 0, 5))
+    ev.append(('section_annotations', 0, x))
+  if groups:
+    g = ns.section_groups.add(num_times=2)
+    g.sections.add(section_id=1)
+  ns.id = P + 'id'
+  ns.ticks_per_quarter = c.int(P + 'tpq', 1, 960)
+  ns.part_infos.add(part=1, name='part')
+  ns.instrument_infos.add(instrument=1, name='instr')
+  ns.source_info.parser = 2
+  ns.sequence_metadata.title = 'title'
+  ns.sequence_metadata.composers.append('a')
+  ns.sequence_metadata.genre.append('g')
+  ns.subsequence_info.start_time_offset = c.real(P + 'sub_s', 0)
+  return {'notes': notes, 'tt': tt, 'events': ev}
